@@ -929,7 +929,7 @@ def _strategy():
 
 
 def run(ctx):
-    ctx.hyp(_strategy, check_case, max_examples=ctx.pick(6000, 80000))
+    ctx.hyp(_strategy, check_case, max_examples=ctx.pick(8000, 400000))
 
 
 def replay(case):
